@@ -101,6 +101,23 @@ func c10Sign(c *core.Ctx) {
 			}
 		})
 		c.Decide(stored, rule, label+"#stored", sign.Pos(), "the stored signature is the result of that SignHash call, in the same certificate's aggchain data")
+		// every successful return has been through this SignHash call and the store of its result: no path (a cache,
+		// a shortcut for "already signed") hands back a certificate whose signature was not computed over its current content
+		isOKRet := func(i ssa.Instruction) bool {
+			r, ok := i.(*ssa.Return)
+			return ok && len(r.Results) == 2 && isNilConst(r.Results[1])
+		}
+		skip := (&core.Walk{Stop: func(i ssa.Instruction) bool { return i == ssa.Instruction(sign) }, Target: isOKRet}).From(core.Entry(fn), nil)
+		sigWrites := 0
+		core.Instrs(fn, func(i ssa.Instruction) {
+			if st, ok := i.(*ssa.Store); ok {
+				a := sx.Of(st.Addr).String()
+				if strings.HasPrefix(a, "CERT.AggchainData") {
+					sigWrites++
+				}
+			}
+		})
+		c.Decide(skip == nil && sigWrites == 1, rule, label+"#signed-on-every-path", sign.Pos(), fmt.Sprintf("no successful return bypasses SignHash (%s); the aggchain data is written once, with that call's result (%d writes)", core.PathStr(skip), sigWrites))
 		// commitment fields are not modified after the hash was taken (stores through CERT after the hash call)
 		var hashCall ssa.Instruction
 		core.Instrs(fn, func(i ssa.Instruction) {
@@ -364,6 +381,11 @@ func c10Wire(c *core.Ctx) {
 			lit := sx.Of(al)
 			okBE := lit.Fields["BridgeExit"] != nil && lit.Fields["BridgeExit"].String() == "agglayer/grpc.convertToProtoBridgeExit(ibe.BridgeExit)"
 			c.Decide(okBE, rule, "grpc.convertToProtoImportedBridgeExit#BridgeExit", al.Pos(), "proto BridgeExit ← convertToProtoBridgeExit(ibe.BridgeExit)")
+			// the global index on the wire is the same 256-bit integer that the commitments hash (sibling agreement:
+			// GlobalIndex.Hash, GlobalIndexToLittleEndianBytes and the wire all go through bridgesync.GenerateGlobalIndex)
+			check("grpc.convertToProtoImportedBridgeExit", lit, map[string]string{
+				"GlobalIndex.Value": hb + "github.com/ethereum/go-ethereum/common.BigToHash(bridgesync.GenerateGlobalIndex(ibe.GlobalIndex.MainnetFlag, ibe.GlobalIndex.RollupIndex, ibe.GlobalIndex.LeafIndex)))",
+			}, al)
 		}
 	}
 	sib := c.MustFn(rule, "agglayer/grpc", "", "convertToProtoSiblings")
@@ -668,13 +690,102 @@ func init() {
 	register(&Property{
 		ID:    "C10",
 		Level: "other",
-		Explanation: "Decides the structural necessary conditions of 'the signature commits to exactly what is sent and stored': C10-sign — in both flows the signature stored in the certificate is the result of the configured signer's SignHash over cert.PPHashToSign() / cert.FEPHashToSign() of that same certificate object, no covered field is written after the commitment was computed, the signed object is what the flow returns, sendCertificate neither modifies it nor substitutes another object between build, send and JSON serialisation, and the signer fields are written by the constructors only; C10-cover — the set of Certificate fields read by the commitment and identity hashes is computed, and each of them is forwarded by the gRPC conversion, has a JSON key and is restored by UnmarshalJSON; C10-wire — every proto field of the certificate, bridge exit, both claim kinds and their proofs/leaves takes the same-named source field (rename table Rer/Mer/DestNetwork/…; both claim kinds agree on the shared fields), exits converted element-wise in order, siblings positional, leaf type mapping; C10-json — for each type with a hand-written codec the key set written equals the key set read, UnmarshalJSON assigns every field from the decoded field of the same name and MarshalJSON fills every key from it; C10-hashfields — each Hash() of the nested types reads every field of its struct except an explicit, reasoned table. Not decided: collision-freeness beyond 'the field is read into the hash input'.",
+		Explanation: "Decides the structural necessary conditions of 'the signature commits to exactly what is sent and stored': C10-sign — in both flows the signature stored in the certificate is the result of the configured signer's SignHash over cert.PPHashToSign() / cert.FEPHashToSign() of that same certificate object, no covered field is written after the commitment was computed, no successful return of signCertificate bypasses the SignHash call and the aggchain data is written exactly once (no signature cache or shortcut), the signed object is what the flow returns, sendCertificate neither modifies it nor substitutes another object between build, send and JSON serialisation, and the signer fields are written by the constructors only; C10-commit — the byte layout of Certificate.Hash / PPHashToSign / FEPHashToSign ([LAYOUT]) and the construction of their per-exit lists ([LIST]): one element per entry of the exit slice, for the whole range, in order, with the expected element layout, each element in storage of its own (a hoisted, re-sliced buffer makes every chunk alias the last one); GlobalIndex.Hash, GlobalIndexToLittleEndianBytes and the wire encode the same integer bridgesync.GenerateGlobalIndex(flag, rollup, leaf); C10-cover — the set of Certificate fields read by the commitment and identity hashes is computed, and each of them is forwarded by the gRPC conversion, has a JSON key and is restored by UnmarshalJSON; C10-wire — every proto field of the certificate, bridge exit, both claim kinds and their proofs/leaves takes the same-named source field (rename table Rer/Mer/DestNetwork/…; both claim kinds agree on the shared fields), exits converted element-wise in order, siblings positional, leaf type mapping; C10-json — for each type with a hand-written codec the key set written equals the key set read, UnmarshalJSON assigns every field from the decoded field of the same name and MarshalJSON fills every key from it; C10-hashfields — each Hash() of the nested types reads every field of its struct except an explicit, reasoned table. Not decided: collision-freeness beyond 'the field is read into the hash input'.",
 		Rules: []Rule{
-			{ID: "C10-sign", Floor: 13, Run: c10Sign, Text: "[PROV]+[DOM]+[WHO] sign-after-build over the commitment of the same object; no late mutation; same object sent and stored"},
+			{ID: "C10-sign", Floor: 16, Run: c10Sign, Text: "[PROV]+[DOM]+[WHO] sign-after-build over the commitment of the same object; no late mutation; same object sent and stored"},
+			{ID: "C10-commit", Floor: 17, Run: c10Commit, Text: "[LAYOUT]+[LIST] byte layout of Hash / PPHashToSign / FEPHashToSign; per-exit lists: one element per exit, whole range, in order, own storage"},
 			{ID: "C10-cover", Floor: 5, Run: c10Cover, Text: "computed commitment read set ⊆ wire ∩ JSON"},
 			{ID: "C10-wire", Floor: 40, Run: c10Wire, Text: "[FIELDMAP] proto conversion field by field"},
 			{ID: "C10-json", Floor: 35, Run: c10JSON, Text: "codec key sets and per-field assignment"},
 			{ID: "C10-hashfields", Floor: 9, Run: c10HashFields, Text: "every Hash() covers its struct's fields except the reasoned table"},
 		},
 	})
+}
+
+// c10Commit: the byte layout of the three certificate commitments, including how the per-exit lists are built:
+// one element per exit, in order, for the whole range, each in storage of its own.
+func c10Commit(c *core.Ctx) {
+	const rule = "C10-commit"
+	idx := "[(loop{const(-1)} + const(1))]"
+	ibes := "c.ImportedBridgeExits"
+	type listWant struct{ over, elem string }
+	// the integer form of the global index is the same in both commitments (and on the wire, see C10-wire)
+	for _, g := range []struct{ recv, fn, want string }{
+		{"GlobalIndex", "Hash", "K(BYTES(common.BigIntToLittleEndianBytes(bridgesync.GenerateGlobalIndex(g.MainnetFlag, g.RollupIndex, g.LeafIndex))))"},
+		{"ImportedBridgeExit", "GlobalIndexToLittleEndianBytes", "BYTES(common.BigIntToLittleEndianBytes(bridgesync.GenerateGlobalIndex(c.GlobalIndex.MainnetFlag, c.GlobalIndex.RollupIndex, c.GlobalIndex.LeafIndex)))"},
+	} {
+		fn := c.MustFn(rule, "agglayer/types", g.recv, g.fn)
+		if fn == nil {
+			continue
+		}
+		var ret ssa.Value
+		for _, r := range core.Returns(fn) {
+			ret = r.Results[0]
+		}
+		got := core.NewLayout().Of(ret)
+		c.Decide(got == g.want, rule, "agglayer/types.(*"+g.recv+")."+g.fn+"#global-index", fn.Pos(), "= "+got)
+	}
+	for _, w := range []struct {
+		fn     string
+		layout string
+		lists  []listWant
+	}{
+		{"PPHashToSign", "K(RAW32(c.NewLocalExitRoot)|K(LIST(makeslice:[][]byte)))", []listWant{
+			{ibes, "RAW32((*agglayer/types.GlobalIndex).Hash(" + ibes + idx + ".GlobalIndex))"}}},
+		{"FEPHashToSign", "K(RAW32(c.NewLocalExitRoot)|K(LIST(loop{makeslice:[][]byte}))|LE64(c.Height)|PHI{GLOBAL(agglayer/types.emptyBytesHash)|RAW32(c.AggchainData#0.AggchainParams)})", []listWant{
+			{ibes, "BYTES((*agglayer/types.ImportedBridgeExit).GlobalIndexToLittleEndianBytes(" + ibes + idx + "))|RAW32((*agglayer/types.BridgeExit).Hash(" + ibes + idx + ".BridgeExit))"}}},
+		{"Hash", "K(BE32(c.NetworkID)|BE64(c.Height)|RAW32(c.PrevLocalExitRoot)|RAW32(c.NewLocalExitRoot)|K(LIST(makeslice:[][]byte))|K(LIST(makeslice:[][]byte)))", []listWant{
+			{"c.BridgeExits", "RAW32((*agglayer/types.BridgeExit).Hash(c.BridgeExits" + idx + "))"},
+			{ibes, "RAW32((*agglayer/types.ImportedBridgeExit).Hash(" + ibes + idx + "))"}}},
+	} {
+		fn := c.MustFn(rule, "agglayer/types", "Certificate", w.fn)
+		if fn == nil {
+			continue
+		}
+		label := "agglayer/types.(*Certificate)." + w.fn
+		sx := core.NewSymx()
+		var ret ssa.Value
+		for _, r := range core.Returns(fn) {
+			ret = r.Results[0]
+		}
+		got := core.NewLayout().Of(ret)
+		c.Decide(got == w.layout, rule, label+"#layout", fn.Pos(), "commitment = "+got)
+		// the lists, in the order in which they are hashed
+		var lists []ssa.Value
+		core.Instrs(fn, func(i ssa.Instruction) {
+			if core.IsCallTo(i, "github.com/ethereum/go-ethereum/crypto.Keccak256", "github.com/ethereum/go-ethereum/crypto.Keccak256Hash") {
+				a := core.AsCall(i).Args[0]
+				switch a.(type) {
+				case *ssa.MakeSlice, *ssa.Phi:
+					lists = append(lists, a)
+				}
+			}
+		})
+		if len(lists) != len(w.lists) {
+			c.Violate(rule, label+"#lists", fn.Pos(), fmt.Sprintf("expected %d per-exit lists, found %d", len(w.lists), len(lists)))
+			continue
+		}
+		for k, lv := range lists {
+			lw := w.lists[k]
+			lb := core.AnalyseList(lv)
+			ll := fmt.Sprintf("%s#list-%s", label, strings.TrimPrefix(lw.over, "c."))
+			if len(lb.Problems) > 0 || len(lb.Elems) != 1 {
+				c.Violate(rule, ll, fn.Pos(), fmt.Sprintf("list construction not of the one-element-per-exit form: %v (%d element writes)", lb.Problems, len(lb.Elems)))
+				continue
+			}
+			e := lb.Elems[0]
+			okSize := false
+			if lb.Append {
+				n, isC := core.ConstInt(lb.Make.Len)
+				okSize = isC && n == 0
+			} else {
+				okSize = sx.Of(lb.Make.Len).String() == "len("+lw.over+")" && e.Idx != nil && "["+sx.Of(e.Idx).String()+"]" == idx
+			}
+			full, why := core.FullRange(e.At, sx, lw.over)
+			c.Decide(okSize && full, rule, ll+"#one-per-exit", e.At.Pos(), "the list has exactly one element per entry of "+lw.over+", in order, for the whole range "+why)
+			g := core.NewLayout().Of(e.Val)
+			c.Decide(g == lw.elem, rule, ll+"#element", e.At.Pos(), "element i = "+g)
+			c.Decide(e.Fresh, rule, ll+"#own-storage", e.At.Pos(), "each element lives in storage of its own ("+e.Why+")")
+		}
+	}
 }
